@@ -35,6 +35,9 @@ impl Tables {
 
 impl Sub for Tables {
     type Case = TableCase;
+    fn restrictable(&self) -> bool {
+        true
+    }
     fn name(&self) -> &'static str {
         "ntt_tables"
     }
@@ -80,6 +83,9 @@ pub struct Basis;
 
 impl Sub for Basis {
     type Case = BasisCase;
+    fn restrictable(&self) -> bool {
+        true
+    }
     fn name(&self) -> &'static str {
         "ntt_basis_vectors"
     }
@@ -154,6 +160,9 @@ pub fn residue_vec(n: usize) -> BoxedStrategy<Vec<i16>> {
 
 impl Sub for Product {
     type Case = ProductCase;
+    fn restrictable(&self) -> bool {
+        true
+    }
     fn name(&self) -> &'static str {
         "ntt_product"
     }
@@ -205,6 +214,9 @@ pub struct Spectrum;
 
 impl Sub for Spectrum {
     type Case = SpectrumCase;
+    fn restrictable(&self) -> bool {
+        true
+    }
     fn name(&self) -> &'static str {
         "ntt_spectrum"
     }
@@ -280,6 +292,9 @@ pub struct Sequence;
 
 impl Sub for Sequence {
     type Case = SeqCase;
+    fn restrictable(&self) -> bool {
+        true
+    }
     fn name(&self) -> &'static str {
         "ntt_same_operands_sequence"
     }
